@@ -4,4 +4,6 @@ cd "$(dirname "$0")"
 export GOPROXY=off GOSUMDB=off GOTOOLCHAIN=local
 mkdir -p bin evidence replays
 (cd engine && GOFLAGS=-mod=mod go build -o ../bin/vcheck .)
+# PostgreSQL's own parser (pg_query_go, cgo) as referee for SQL-syntax claims; optional
+(cd pgconfirm && GOFLAGS=-mod=mod go build -o ../bin/pgconfirm . 2>/dev/null) || echo "note: pgconfirm not built; SQL candidates are confirmed by the native twin only"
 echo setup ok
